@@ -138,7 +138,7 @@ func TestC15_Public(t *testing.T) {
 		// slices returned earlier must stay what they were while the generator is used further (no aliasing of an internal buffer)
 		type keptInts struct {
 			out, copyOf []int
-			what       string
+			what        string
 		}
 		var kept []keptInts
 		keep := func(p []int, what string) {
